@@ -291,9 +291,12 @@ def memory_rollback(tier, oid='O4', prefix='O4'):
     total = 0
     scenarios = 0
     # mutations between snapshot and rollback: which nostr id the group is re-saved with (None = not re-saved), whether the other group is re-saved too
-    for g_new_nid in (None, N[0], N[2]):
-        for other_changes in (False, True):
-            for extra_snapshot in (False, True):
+    import itertools
+    for g_new_nid, other_changes, extra_snapshot, empty in itertools.product((None, N[0], N[2]), (False, True), (False, True), (False, True)):
+        if True:
+            if True:
+                # `empty`: at snapshot time the group has NO relays, exporter secrets, own-leaf and epoch-key rows; they appear afterwards
+                # and the rollback must remove them again (restoring "nothing" is also restoring)
                 scenarios += 1
                 st = State()
                 g0, h0 = group('g0', G, N[0]), group('h0', H, N[1])
@@ -311,6 +314,11 @@ def memory_rollback(tier, oid='O4', prefix='O4'):
                     'group_exporter_secrets_cache': MapV([[Agg('tuple', None, None, [G, z3.BitVecVal(1, 64)]), Opaque('secG1', 'GroupExporterSecret')],
                                                           [Agg('tuple', None, None, [H, z3.BitVecVal(1, 64)]), Opaque('secH1', 'GroupExporterSecret')]], 'LruCache'),
                 }
+                if empty:
+                    caches['mls_own_leaf_nodes'] = mls_store([])
+                    caches['mls_epoch_key_pairs'] = mls_store([])
+                    caches['group_relays_cache'] = MapV([[H, MapV([[Opaque('relayH', 'GroupRelay'), M.UNIT()]], 'BTreeSet', True)]], 'LruCache')
+                    caches['group_exporter_secrets_cache'] = MapV([[Agg('tuple', None, None, [H, z3.BitVecVal(1, 64)]), Opaque('secH1', 'GroupExporterSecret')]], 'LruCache')
                 sref = storage(st, caches)
                 name = Ref(st.temp(StrV(text='s')), ())
                 gref = Ref(st.temp(G), ())
@@ -331,10 +339,20 @@ def memory_rollback(tier, oid='O4', prefix='O4'):
                     if not rs:
                         continue
                     st = rs[0].st
+                if g_new_nid is not None or empty:
                     inn = inner_of(ob.eng, st, sref)
-                    inn.fields[INNER_FIELDS.index('group_relays_cache')].entries[0][1] = MapV([[Opaque('relayG2', 'GroupRelay'), M.UNIT()]], 'BTreeSet', True)
+                    rc = inn.fields[INNER_FIELDS.index('group_relays_cache')]
+                    newrel = MapV([[Opaque('relayG2', 'GroupRelay'), M.UNIT()]], 'BTreeSet', True)
+                    mine_ = [e for e in rc.entries if repr(e[0]) == repr(G)]
+                    if mine_:
+                        mine_[0][1] = newrel
+                    else:
+                        rc.entries.append([G, newrel])
                     inn.fields[INNER_FIELDS.index('group_exporter_secrets_cache')].entries.append([Agg('tuple', None, None, [G, z3.BitVecVal(2, 64)]), Opaque('secG2', 'GroupExporterSecret')])
                     inn.fields[INNER_FIELDS.index('mls_group_data')].fields[0].entries[0][1] = Opaque('mlsG2', 'Vec<u8>')
+                    if empty:
+                        inn.fields[INNER_FIELDS.index('mls_own_leaf_nodes')].fields[0].entries.append([gb(G), SeqV([Opaque('leafG2', 'Vec<u8>')], 'Vec')])
+                        inn.fields[INNER_FIELDS.index('mls_epoch_key_pairs')].fields[0].entries.append([Agg('tuple', None, None, [gb(G), Tok('ep', 1), z3.BitVecVal(0, 32)]), Opaque('kpG2', 'Vec<u8>')])
                 if other_changes:
                     h1 = group('h1', H, N[1])
                     rs = [p for p in ob.explore(f_save, [sref, h1], st) if p.kind == 'return' and vname(p.ret) == 'Ok']
@@ -349,7 +367,7 @@ def memory_rollback(tier, oid='O4', prefix='O4'):
                     if not ob.require(vname(p.ret) == 'Ok', f'{prefix}/memory-rollback-fails', 'rollback of an existing snapshot fails', p):
                         continue
                     after = dump_store(ob.eng, p.st, sref)
-                    tag = f'(group re-saved with nostr id {g_new_nid}, other group changed={other_changes})'
+                    tag = f'(group re-saved with nostr id {g_new_nid}, other group changed={other_changes}, group had no relays/secrets/leaf rows at snapshot time={empty})'
                     # the group's own data == snapshot time
                     for cname in ('groups_cache', 'group_relays_cache', 'group_exporter_secrets_cache', 'mls_group_data', 'mls_own_leaf_nodes', 'mls_proposals', 'mls_epoch_key_pairs'):
                         mine = lambda d: [e for e in d[cname] if e[0].startswith('G0|')]
@@ -379,3 +397,54 @@ def memory_rollback(tier, oid='O4', prefix='O4'):
 
 def mfield_g(g, name):
     return g.fields[(g.names or GROUP_FIELDS).index(name)]
+
+
+@guard
+def save_group_refusal(tier, oid='O6', prefix='O6'):
+    """memory save_group: a refused save (Nostr id already routed to another group) changes nothing; an accepted save stores the record and routes its id"""
+    ob = Ob(oid, 'memory backend save_group: when the record\'s Nostr group id already routes to ANOTHER group the call fails and no cache is changed (no phantom record, no index change); '
+                 'otherwise the record is stored, its Nostr id routes to it and a rotated-away id no longer does',
+            crates=CRATES, models=snapshot_models(), loop_bound=12, max_paths=200000)
+    f_save = ob.prog.find(MEM, 'groups::save_group')
+    G, H, K = Tok('g', 0), Tok('g', 1), Tok('g', 2)
+    N = [Tok('n', k) for k in range(3)]
+    total = n_err = n_ok = 0
+    # who is saved (existing group G or a new group K) x which Nostr id it carries (its own, the other group's, a fresh one)
+    for who, nid in itertools.product((G, K), (N[0], N[1], N[2])):
+        st = State()
+        g0, h0 = group('g0', G, N[0]), group('h0', H, N[1])
+        caches = {'groups_cache': MapV([[G, g0], [H, h0]], 'LruCache'),
+                  'groups_by_nostr_id_cache': MapV([[N[0], copy_msg(g0)], [N[1], copy_msg(h0)]], 'LruCache')}
+        sref = storage(st, caches)
+        before_ = dump_store(ob.eng, st, sref)
+        rec = group('new', who, nid)
+        collides = (nid is N[1]) or (who is K and nid is N[0])
+        ok_before = n_ok
+        tag = f'(saving group {who} with Nostr id {nid})'
+        for p in ob.explore(f_save, [sref, rec], st):
+            total += 1
+            tag = f'(saving group {who} with Nostr id {nid})'
+            if p.kind == 'panic':
+                ob.require(False, f'{prefix}/memory-save-group-panic', f'save_group panics: {p.msg} {tag}', p); continue
+            after = dump_store(ob.eng, p.st, sref)
+            if vname(p.ret) != 'Ok':
+                n_err += 1
+                # (refusals for the configured name / description / admin-count limits are legitimate; they too must be effect-free)
+                ob.require(after == before_, f'{prefix}/memory-save-group-refused-with-effects',
+                           f'save_group returned an error but changed the store: a refused record is visible afterwards {tag}', p,
+                           {'changed': [k for k in after if after.get(k) != before_.get(k)]})
+                continue
+            n_ok += 1
+            ob.require(not collides, f'{prefix}/memory-save-group-collision-accepted', f'save_group accepts a record whose Nostr id routes to another group {tag}', p)
+            gc = cache(ob.eng, p.st, sref, 'groups_cache')
+            nc = cache(ob.eng, p.st, sref, 'groups_by_nostr_id_cache')
+            want = sorted((repr(mfield_g(v, 'nostr_group_id')), srepr(v)) for k, v in gc.entries)
+            got = sorted((repr(k), srepr(v)) for k, v in nc.entries)
+            ob.require(want == got, f'{prefix}/memory-save-group-index', f'after save_group the Nostr-id index does not mirror the group records {tag}', p, {'index': [x[0] for x in got], 'records': [x[0] for x in want]})
+            ob.require(any(repr(k) == repr(who) and srepr(v) == srepr(rec) for k, v in gc.entries), f'{prefix}/memory-save-group-not-stored', f'the saved record is not what a lookup returns {tag}', p)
+        ob.require(collides or n_ok > ok_before, f'{prefix}/memory-save-group-refused', f'save_group never accepts a record whose Nostr id is free or its own {tag}')
+    ob.require(n_err >= 2 and n_ok >= 2, f'{prefix}/vacuity', f'refused {n_err}, accepted {n_ok}')
+    ob.r.bounds = {'groups': '2 stored + 1 new', 'nostr ids': 'pool of 3 (own, other group\'s, fresh)', 'record payload': 'symbolic'}
+    ob.r.assumptions += ASSUMPTIONS
+    ob.r.vacuity.append(f'{total} paths: {n_err} refused, {n_ok} accepted')
+    return ob.done(cases=total)
